@@ -469,6 +469,92 @@ pub fn crowded_builder(rng: &mut Rng) -> BoardBuilder {
     }
 }
 
+/// kings and rooks on home squares in every colour assignment, shielded from each other, random rights:
+/// exercises the "right backed by king and rook of that colour at home" test against look-alikes
+pub fn home_square_confusion(rng: &mut Rng) -> BoardBuilder {
+    let mut p = RPos::empty();
+    let swap = rng.chance(1, 2);
+    let (wk, bk) = if swap { (60usize, 4usize) } else { (4usize, 60usize) };
+    if rng.chance(7, 8) {
+        p.sq[wk] = pc(K, WHITE);
+    } else {
+        p.sq[rng.below(64)] = pc(K, WHITE);
+    }
+    if p.sq[bk] == 0 && rng.chance(7, 8) {
+        p.sq[bk] = pc(K, BLACK);
+    } else {
+        let s = rng.below(64);
+        if p.sq[s] == 0 {
+            p.sq[s] = pc(K, BLACK);
+        }
+    }
+    for corner in [0usize, 7, 56, 63].iter() {
+        if p.sq[*corner] == 0 && rng.chance(3, 4) {
+            let c = if rng.chance(3, 4) { if (*corner < 8) != swap { WHITE } else { BLACK } } else { rng.below(2) as u8 };
+            p.sq[*corner] = pc(if rng.chance(7, 8) { R } else { Q }, c);
+        }
+    }
+    // shields beside the kings so that rooks on the back ranks do not give check
+    for s in [3usize, 5, 59, 61].iter() {
+        if p.sq[*s] == 0 && rng.chance(4, 5) {
+            let near_white = (*s < 8) != swap;
+            p.sq[*s] = pc(*rng.pick(&[N, B]), if near_white { WHITE } else { BLACK });
+        }
+    }
+    for _ in 0..rng.below(4) {
+        let s = rng.range(8, 55);
+        if p.sq[s] == 0 {
+            p.sq[s] = pc(*rng.pick(&[P, N, B]), rng.below(2) as u8);
+        }
+    }
+    p.stm = rng.below(2) as u8;
+    p.castle = match rng.below(4) {
+        0 => 15,
+        1 => *rng.pick(&[5u8, 10, 6, 9, 3, 12]),
+        _ => rng.below(16) as u8,
+    };
+    builder_from_model(&p)
+}
+
+/// (nearly) full boards: the start position with the middle ranks filled, all rights, an e.p. candidate;
+/// the longest renderings and the fullest move lists
+pub fn full_board_builder(rng: &mut Rng) -> BoardBuilder {
+    let mut p = RPos::startpos();
+    for s in 16..48usize {
+        if rng.chance(15, 16) {
+            let c = if rng.chance(1, 2) { WHITE } else { BLACK };
+            p.sq[s] = pc(*rng.pick(&[P, P, P, P, N, B]), c);
+        }
+    }
+    p.stm = rng.below(2) as u8;
+    // an e.p. candidate: a pawn of the side that just moved on its fourth rank with an enemy pawn beside it
+    let f = rng.range(1, 6);
+    let (r4, mover) = if p.stm == BLACK { (3usize, WHITE) } else { (4usize, BLACK) };
+    p.sq[r4 * 8 + f] = pc(P, mover);
+    p.sq[r4 * 8 + f - 1] = pc(P, mover ^ 1);
+    p.ep = Some(if mover == WHITE { (2 * 8 + f) as u8 } else { (5 * 8 + f) as u8 });
+    if rng.chance(1, 4) {
+        p.castle = rng.below(16) as u8;
+    }
+    // remove whatever attacks the king of the side not to move
+    for _ in 0..40 {
+        let k = match p.king_sq(p.stm ^ 1) {
+            Some(k) => k,
+            None => break,
+        };
+        let att = p.attackers(k, p.stm);
+        if att == 0 {
+            break;
+        }
+        let s = att.trailing_zeros() as usize;
+        if kind(p.sq[s]) == K {
+            break;
+        }
+        p.sq[s] = 0;
+    }
+    builder_from_model(&p)
+}
+
 pub fn run_c07(ctx: &Ctx, rep: &mut Report) {
     let miri = ctx.variant == Variant::Miri;
     let corpus = corpus_positions();
@@ -498,6 +584,10 @@ pub fn run_c07(ctx: &Ctx, rep: &mut Report) {
         "7k/8/1P1P1P1P/P1P1P1P1/1P1P1P1P/P1P1P1P1/1P1P1P1P/K7 w - - 0 1",
         "k7/8/8/8/8/8/NNNNNNNN/KNNNNNNN w - - 0 1",
         "7k/PPPPPPPP/8/8/8/8/PPPPPPPP/K7 w - - 0 1",
+        "rnbqkbnr/pppppppp/pppppppp/pppppppp/PPPpPPPP/PPPPPPPP/PPPPPPPP/RNBQKBNR b KQkq e3 0 1",
+        "rnbqkbnr/pppppppp/pnpnpnpn/pPpppppp/PPPPPPPP/NPNPNPNP/PPPPPPPP/RNBQKBNR w KQkq a6 0 1",
+        "r2nKn1r/8/8/8/8/8/8/R2NkN1R w KQkq - 0 1",
+        "r2nKn1r/8/8/8/8/8/8/R2NkN1R b Kq - 0 1",
     ];
     // pinned regression inputs always run first (tiny): the crowded FEN from DESIGN section 1.3 and relatives;
     // one input per case so that the shards share them
@@ -537,6 +627,7 @@ pub fn run_c07(ctx: &Ctx, rep: &mut Report) {
         rep.count("ev_valid_submitted");
         judge_text(&valid_fen, true, rep);
         judge_builder(&builder_from_model(&base), "valid-model-position", true, rep);
+        judge_builder(&builder_from_model_shuffled(&base, rng), "valid-model-position-setters-shuffled", true, rep);
         if gid < 3 {
             rep.sample(format!("valid {:?} and mutants such as {:?}", valid_fen, mutate(rng, &valid_fen)));
         }
@@ -592,6 +683,14 @@ pub fn run_c07(ctx: &Ctx, rep: &mut Report) {
                     rep.sample(format!("crowded builder state: {}", bb));
                 }
                 judge_builder(&bb, "crowded", false, rep);
+            } else if i % 8 == 5 {
+                let bb = home_square_confusion(rng);
+                rep.count("ev_home_confusion_submitted");
+                judge_builder(&bb, "home-square-confusion", false, rep);
+            } else if i % 8 == 1 {
+                let bb = full_board_builder(rng);
+                rep.count("ev_full_board_submitted");
+                judge_builder(&bb, "full-board", false, rep);
             } else if i % 4 == 1 {
                 // a valid position with one field perturbed
                 let mut p = synth::synth(rng, Density::Medium);
